@@ -53,8 +53,8 @@ CHECKS = {
              "for an incomplete window, a nodata cell or a window without valid cells; an all-nodata window reaches a sentinel store), window bounds, agreement of the "
              "kernel's prefix with the accessor's trimming, mean_grp accumulation/finalisation descriptor (skip == nodata, count, n == 0 -> nodata else sum/n, scatter "
              "index == gather index, group coverage), sentinel never an arithmetic operand, argument binding, nodata resolution order.",
-        note="Trusted: xarray apply_ufunc core-dimension contract. Exactness of float32 sums for large magnitudes is declined.",
-        technique="static analysis: typestate path queries on the statement CFG, guard-atom descriptors, integer normal forms",
+        note="Trusted: xarray apply_ufunc core-dimension contract; Numba type inference. Exactness of float32 sums for large magnitudes is declined.",
+        technique="static analysis: typestate path queries on the statement CFG, guard-atom descriptors, integer normal forms, Numba typed IR (narrowing stores of computed values)",
     ),
     "C18": dict(
         category=OTHER,
@@ -117,8 +117,8 @@ CHECKS = {
         text="R-READONLY (no store into an input or a view of one; working arrays are copies), scatter descriptor (cursors), solver call (lambda = 1e-5 as an exact "
              "constant, weights = untouched template copy), run-length averaging descriptor (sum/count/index roles identified from the store, reset together, final "
              "flush, round half-even), division guard on the count (positive-counter lemma), accessor: int16 requirement, output length, declared dtype, binding.",
-        note="Trusted: Python round() is half-even; C01 for the solve and C14 for bounds. Exactness on constant/linear input is declined.",
-        technique="static analysis: store/def descriptors with guards from the structured walk, alias analysis for views/copies",
+        note="Trusted: Python round() is half-even; Numba type inference; C01 for the solve and C14 for bounds. Exactness on constant/linear input is declined.",
+        technique="static analysis: store/def descriptors with guards from the structured walk, alias analysis for views/copies, Numba typed IR (result type of the solver call per declared signature)",
     ),
     "C03": dict(
         category=OTHER,
